@@ -431,7 +431,10 @@ TEdit(p) ==
        ELSE SetXf(p, [x EXCEPT !.snap = x.view, !.pend = x.tgt, !.pc = "cas"])
             /\ Rec("TEdit", p, <<>>, "ok", Aud(x.b, x.tgt, x.force, h, h, x.cmp, R))
 
-\* ChunkStore.Commit(new root, root read by TEdit): compare-and-swap on the store root
+\* ChunkStore.Commit(new root, root read by TEdit): compare-and-swap on the store root.
+\* (Content addressing: if the other client has just installed exactly the root AND table files this client is about to
+\* install -- two forced pushes of the same commit -- a NomsBlockStore finds the wanted manifest in place and reports success
+\* at once; the model takes one more retry round and installs the same root. Same resulting state; the engine accepts both.)
 TCas(p) ==
     LET x == xf[p]  h == head[R][x.b] IN
     /\ exists[p] /\ MayStep(p) /\ x.pc = "cas"
